@@ -278,6 +278,37 @@ template<class S> static void feed(S& s, const Item& it) {
     case 10: s.update(it.sv); break;           case 11: s.update(it.sv.data(), it.sv.size()); break;
   }
 }
+template<class S> static bool qfeed(const S& s, const Item& it) {
+  switch (it.type) {
+    case 0: return s.query((uint64_t)it.iv);  case 1: return s.query((int64_t)it.iv);
+    case 2: return s.query((uint32_t)it.iv);  case 3: return s.query((int32_t)it.iv);
+    case 4: return s.query((uint16_t)it.iv);  case 5: return s.query((int16_t)it.iv);
+    case 6: return s.query((uint8_t)it.iv);   case 7: return s.query((int8_t)it.iv);
+    case 8: return s.query((double)it.dv);    case 9: return s.query((float)it.dv);
+    case 10: return s.query(it.sv);           default: return s.query(it.sv.data(), it.sv.size());
+  }
+}
+template<class S> static bool qufeed(S& s, const Item& it) {
+  switch (it.type) {
+    case 0: return s.query_and_update((uint64_t)it.iv);  case 1: return s.query_and_update((int64_t)it.iv);
+    case 2: return s.query_and_update((uint32_t)it.iv);  case 3: return s.query_and_update((int32_t)it.iv);
+    case 4: return s.query_and_update((uint16_t)it.iv);  case 5: return s.query_and_update((int16_t)it.iv);
+    case 6: return s.query_and_update((uint8_t)it.iv);   case 7: return s.query_and_update((int8_t)it.iv);
+    case 8: return s.query_and_update((double)it.dv);    case 9: return s.query_and_update((float)it.dv);
+    case 10: return s.query_and_update(it.sv);           default: return s.query_and_update(it.sv.data(), it.sv.size());
+  }
+}
+// typed update overloads that carry a value next to the key (Tuple family)
+template<class S, class V> static void feedv(S& s, const Item& it, const V& v) {
+  switch (it.type) {
+    case 0: s.update((uint64_t)it.iv, v); break;  case 1: s.update((int64_t)it.iv, v); break;
+    case 2: s.update((uint32_t)it.iv, v); break;  case 3: s.update((int32_t)it.iv, v); break;
+    case 4: s.update((uint16_t)it.iv, v); break;  case 5: s.update((int16_t)it.iv, v); break;
+    case 6: s.update((uint8_t)it.iv, v); break;   case 7: s.update((int8_t)it.iv, v); break;
+    case 8: s.update((double)it.dv, v); break;    case 9: s.update((float)it.dv, v); break;
+    case 10: s.update(it.sv, v); break;           case 11: s.update(it.sv.data(), it.sv.size(), v); break;
+  }
+}
 static std::vector<Item> sweep(vt::Rng& g) {
   std::vector<Item> v;
   const long long ints[] = {0, 1, -1, 2, 127, 128, 255, 256, -128, -129, 32767, 32768, 65535, 65536, -32768, 2147483647LL, 2147483648LL, 4294967295LL,
@@ -309,6 +340,29 @@ static int do_hash(uint64_t seed) {
       ev.raw("obs", obs.done()).emit();
     }
     refhash::H128 h{0, 0}; if (counted) h = refhash::murmur3_x64_128(cb.data(), cb.size(), DEFAULT_SEED);
+    { // Tuple family: same key definition as Theta, through the typed overloads of update_tuple_sketch and update_array_of_doubles_sketch
+      auto t = update_tuple_sketch<double>::builder().set_lg_k(5).build();
+      feedv(t, it, 1.0);
+      L obs; for (auto& en : t) obs.add(bv((uint64_t)en.first));
+      Ev ev("Hash"); ev.str("target", "tuple").str("type", TYPES[it.type]).b("counted", counted);
+      if (counted) ev.raw("h1", bv(h.h1)).raw("h2", bv(h.h2));
+      ev.raw("obs", obs.done()).emit();
+      auto a = update_array_of_doubles_sketch::builder(default_array_of_doubles_update_policy(1)).set_lg_k(5).build();
+      std::vector<double> one = {1.0};
+      feedv(a, it, one);
+      L obsa; for (auto& en : a) obsa.add(bv((uint64_t)en.first));
+      Ev ea("Hash"); ea.str("target", "aod").str("type", TYPES[it.type]).b("counted", counted);
+      if (counted) ea.raw("h1", bv(h.h1)).raw("h2", bv(h.h2));
+      ea.raw("obs", obsa.done()).emit();
+    }
+    { // HLL union: its own typed update overloads feed the gadget
+      hll_union u(12); feed(u, it);
+      hll_sketch r = u.get_result(HLL_8);
+      auto img = r.serialize_updatable();
+      Ev ev("Hash"); ev.str("target", "hllunion").str("type", TYPES[it.type]).b("counted", counted).b("empty", r.is_empty());
+      if (counted) ev.raw("h1", bv(h.h1)).raw("h2", bv(h.h2));
+      ev.raw("obs", bl(img.data() + 8, 4)).emit();
+    }
     { // HLL: coupon of the single item = first int of the updatable LIST image
       hll_sketch s(12, HLL_8); feed(s, it);
       auto img = s.serialize_updatable();
@@ -333,7 +387,12 @@ static int do_hash(uint64_t seed) {
       feed(f, it);
       auto img = f.serialize();
       L obs; if (img.size() > 32) for (size_t j = 32; j < img.size(); j++) for (int t = 0; t < 8; t++) if ((img[j] >> t) & 1) obs.addi((long long)((j - 32) * 8 + t));
+      auto f2 = bloom_filter::builder::create_by_size(cap, (uint16_t)nh, bseed);
+      bool before = qufeed(f2, it);               // query_and_update overloads: same indices, "not seen before"
+      auto img2 = f2.serialize();
+      L obsq; if (img2.size() > 32) for (size_t j = 32; j < img2.size(); j++) for (int t = 0; t < 8; t++) if ((img2[j] >> t) & 1) obsq.addi((long long)((j - 32) * 8 + t));
       Ev ev("Hash"); ev.str("target", "bloom").str("type", TYPES[it.type]).b("counted", bc).i("capacity", (long long)cap).i("nhashes", nh);
+      ev.b("found", qfeed(f, it)).b("found_cross", qfeed(f2, it)).b("seen_before", before).raw("obsq", obsq.done());
       if (bc) { uint64_t h0 = refhash::xxh64(bb.data(), bb.size(), bseed), h1 = refhash::xxh64(bb.data(), bb.size(), h0); ev.raw("h1", bv(h0)).raw("h2", bv(h1)); }
       ev.raw("obs", obs.done()).emit();
     }
@@ -347,7 +406,9 @@ static int do_hash(uint64_t seed) {
       L rows; for (int r = 0; r < nh; r++) { uint64_t rs = d(rng) + cseed; rows.add(bv(refhash::murmur3_x64_128(cb.data(), cb.size(), rs).h1)); }
       L obs; size_t idx = 0; for (auto c = s.begin(); c != s.end(); ++c, ++idx) if (*c != 0) obs.add(L().addi((long long)(idx / nb)).addi((long long)(idx % nb)).done());
       Ev ev("Hash"); ev.str("target", "countmin").str("type", TYPES[it.type]).b("counted", counted).i("nbuckets", nb).i("nhashes", nh)
-        .raw("rows", counted ? rows.done() : "[]").raw("obs", obs.done()).emit();
+        .raw("rows", counted ? rows.done() : "[]").raw("obs", obs.done())
+        .i("est", (long long)(it.type == 0 ? s.get_estimate((uint64_t)it.iv) : it.type == 1 ? s.get_estimate((int64_t)it.iv)
+                              : it.type == 10 ? s.get_estimate(it.sv) : s.get_estimate(it.sv.data(), it.sv.size()))).emit();
     }
   }
   return 0;
